@@ -342,7 +342,19 @@ func (w *seqWorld) exec(c *seqCmd) {
 		}
 	case "waitstop":
 		// let a RunSequencer-driven instance run (granting its operations) until its loop has returned
+		// the loop ticks every 2 ms; one second past the read-only date is hundreds of missed chances to stop
+		var until time.Time
+		if in.sunsetArmed && in.cfg != nil {
+			until = in.cfg.NotAfterLimit.Add(ctlog.ReadOnlyAfter)
+			if now := time.Now(); until.Before(now) {
+				until = now
+			}
+			until = until.Add(4 * time.Second)
+		}
 		for k := 0; k < 4000 && in.main != nil && !w.sched.isFinished(in.main); k++ {
+			if !until.IsZero() && time.Now().After(until) {
+				break
+			}
 			ops := w.sched.pendingOf(in.main)
 			if len(ops) == 0 {
 				w.sched.settle(in.main)
@@ -350,6 +362,22 @@ func (w *seqWorld) exec(c *seqCmd) {
 				continue
 			}
 			w.grantOp(in, ops[0], outOK)
+		}
+		if in.main != nil && !w.sched.isFinished(in.main) && !until.IsZero() {
+			w.orc.fail("C17", "sunset-not-stopped", "instance %d: the read-only date passed %v ago and RunSequencer is still running (it keeps sequencing and signing checkpoints)",
+				in.id, time.Since(in.cfg.NotAfterLimit.Add(ctlog.ReadOnlyAfter)).Round(time.Millisecond))
+			if in.runseqCancel != nil {
+				in.runseqCancel()
+				for k := 0; k < 200 && !w.sched.isFinished(in.main); k++ {
+					ops := w.sched.pendingOf(in.main)
+					if len(ops) == 0 {
+						w.sched.settle(in.main)
+						time.Sleep(time.Millisecond)
+						continue
+					}
+					w.grantOp(in, ops[0], outOK)
+				}
+			}
 		}
 		w.after(in)
 	case "submit":
